@@ -18,7 +18,26 @@ carquet_column_reader_t *carquet_reader_get_column(carquet_reader_t *reader, int
   return NULL;
 }
 void carquet_column_reader_free(carquet_column_reader_t *reader) { __CPROVER_assume(0); }
+#ifdef CQV_C19
+/* C19, narrowed: every malloc/calloc made by batch_reader.c itself goes through a wrapper that may fail
+ * (nondeterministic choice per call); all other allocations (harness objects, arena stub, callee
+ * contracts) succeed (job runs with --no-malloc-may-fail). */
+/* ghost: blocks obtained through the wrappers and not yet released (leak accounting restricted to the
+ * allocations of batch_reader.c; cbmc's global leak check would also count harness and contract objects) */
+static int64_t cqv_fi_live;
+static void *cqv_fi_malloc(size_t n) { if (nondet_bool()) return NULL; void *p = malloc(n); __CPROVER_assume(p != NULL); cqv_fi_live++; return p; }
+static void *cqv_fi_calloc(size_t a, size_t b) { if (nondet_bool()) return NULL; void *p = calloc(a, b); __CPROVER_assume(p != NULL); cqv_fi_live++; return p; }
+static void cqv_fi_free(void *p) { if (p != NULL) cqv_fi_live--; free(p); }
+#define malloc(n) cqv_fi_malloc(n)
+#define calloc(a, b) cqv_fi_calloc(a, b)
+#define free(p) cqv_fi_free(p)
+#endif
 #include "src/reader/batch_reader.c"
+#ifdef CQV_C19
+#undef malloc
+#undef calloc
+#undef free
+#endif
 
 #ifndef CQV_NL_MAX
 #define CQV_NL_MAX 3
@@ -43,13 +62,21 @@ void h_batch_next(void) {
   __CPROVER_assume(sc->leaf_indices && sc->max_def_levels && sc->max_rep_levels && sc->elements);
   for (int i = 0; i < CQV_NL_MAX; i++) {
     sc->leaf_indices[i] = i;
+#ifdef CQV_C19
+    sc->max_def_levels[i] = 1;   /* OPTIONAL column */
+#else
     __CPROVER_assume(sc->max_def_levels[i] >= 0 && sc->max_def_levels[i] <= 1);
+#endif
     sc->elements[i].has_type = true;
     sc->elements[i].type = (carquet_physical_type_t)CQV_TYPE;
     sc->elements[i].type_length = 0;
   }
   rd->schema = sc;
+#ifdef CQV_C19
+  rd->mmap_info = NULL;
+#else
   rd->mmap_info = nondet_bool() ? (carquet_mmap_info_t *)sc : NULL;   /* only compared with NULL */
+#endif
   __CPROVER_assume(rd->metadata.num_row_groups >= 1);
 
   carquet_batch_reader_t *br = malloc(sizeof(*br));
@@ -66,6 +93,9 @@ void h_batch_next(void) {
   __CPROVER_assume(br->projected_columns && br->col_readers);
   __CPROVER_assume(br->config.batch_size >= 1);
   CQV_SMALL_ASSUME(br->config.batch_size <= 12);
+#ifdef CQV_C19
+  __CPROVER_assume(br->config.batch_size <= 8);   /* rows_to_read <= 8 */
+#endif
   br->current_row_group = 0;
   __CPROVER_assume(br->total_rows_read >= 0 && br->total_rows_read <= (int64_t)CQV_MAXBUF);
   for (int i = 0; i < CQV_NP_MAX; i++) {
@@ -92,12 +122,21 @@ void h_batch_next(void) {
   cqv_j = nondet_size_t();
   cqv_rb_short = 0;
   cqv_np_witness = 0;
+#ifdef CQV_C19
+  cqv_fi_live = 0;
+#endif
   carquet_row_batch_t *batch = NULL;
   carquet_status_t st = carquet_batch_reader_next(br, &batch);
   CQV_CANARY("batch_next returns");
   if (st == CARQUET_OK) {
     __CPROVER_assert(batch != NULL, "OK comes with a batch");
     __CPROVER_assert(batch->num_columns == np, "one column per projected column");
+#ifdef CQV_C19
+    /* C19: success has the fault-free effect -- the nullable column carries its bitmap (that its bits equal
+     * def[j] < max_def for every row is asserted inside the function, where the levels are still alive) */
+    __CPROVER_assert(batch->columns[0].null_bitmap != NULL && batch->columns[0].data != NULL, "C19: a batch reported OK carries data and null bitmap");
+    CQV_CANARY("c19: batch_next can succeed");
+#endif
     if (!cqv_rb_short) {
       /* C02: every column of a batch has the same number of rows: min(batch_size, rows left) */
       int32_t c = nondet_i32();
@@ -112,4 +151,7 @@ void h_batch_next(void) {
     __CPROVER_assert(batch == NULL, "no batch on error");
     CQV_CANARY("batch_next can fail");
   }
+#ifdef CQV_C19
+  __CPROVER_assert(cqv_fi_live == 0, "C19: every block allocated by batch_reader.c is released (after freeing the batch, or on the error path)");
+#endif
 }
